@@ -101,8 +101,13 @@ m('c09_generate_dedup_shrinks', 'C09', 'algorithm_genetic.py',
 # (removing the clip of PmMutator.pm_mutation alone is an equivalent mutant: Deb's bounded polynomial mutation stays inside
 #  [lb, ub] by construction up to a few ulp, which the C08 tolerance absorbs - measured: 18 000 runs clean)
 m('c08_pm_wrong_delta_no_clip', 'C08', 'operators.py', "        delta2 = (ub - x) / dx\n", "        delta2 = (ub - x) / dx * 1.5\n")
-m('c08_sbx_no_clip_c1', 'C08', 'operators.py', "                        c1 = self.clip(c1, lb, ub)\n", "")
-m('c08_sbx_no_clip_c2', 'C08', 'operators.py', "                        c2 = self.clip(c2, lb, ub)\n", "")
+# (removing one clip of SBX alone is an equivalent mutant for the same reason: bounded SBX keeps c1 >= lb and c2 <= ub by
+#  construction; the observable breakage is unbounded SBX = spread factor not limited by the bounds + no clip)
+m('c08_sbx_unbounded', 'C08', 'operators.py',
+  "                        c2 = 0.5 * (y1 + y2 + betaq * (y2 - y1))\n\n                        # check the boundaries\n"
+  "                        c1 = self.clip(c1, lb, ub)\n                        c2 = self.clip(c2, lb, ub)\n",
+  "                        c2 = 0.5 * (y1 + y2 + 1.5 * betaq * (y2 - y1))\n\n                        # check the boundaries\n"
+  "                        c1 = self.clip(c1, lb, ub)\n")
 m('c08_omopso_no_lower_branch', 'C08', 'algorithm_swarm.py',
   "                # adjust minimum position if necessary\n                if individual.vector[i] < parameter['bounds'][0]:\n"
   "                    individual.vector[i] = parameter['bounds'][0]\n                    individual.features['velocity'][i] *= -1\n\n"
